@@ -1,5 +1,5 @@
-(** C06 — proofs, part 4: the CLI's [FileMap] (file-store index -> index into ["sources"]), the
-    sources-in-range theorem under its guard, and the witnesses showing the guard is needed. *)
+(** C06 — proofs, part 4: the CLI's [FileMap] (file-store index -> index into ["sources"]) and the
+    sources-in-range theorem. *)
 From V Require Import Base.Util Gen.C06_tables_gen C06.Model C06.Spec C06.Proofs C06.ProofsMap C06.ProofsWriter.
 Local Open Scope N_scope.
 
@@ -18,27 +18,22 @@ Proof.
   - rewrite IH by lia. f_equal. lia.
 Qed.
 
-Lemma fi_app : forall a b i sl op,
-  file_indices_from i sl op (a ++ b) = file_indices_from i sl op a ++ file_indices_from (i + N.of_nat (length a)) sl op b.
+Definition sck (p : str) : str * fkind := (p, KSchema).
+Definition opk (p : str) : str * fkind := (p, KOperation).
+
+Lemma fi_schema_app : forall l b i next op,
+  file_indices_from i next op (map sck l ++ b) =
+  nats i (length l) ++ file_indices_from (i + N.of_nat (length l)) next op b.
 Proof.
-  induction a as [|[p k] a IH]; intros b i sl op; cbn [app file_indices_from length].
+  induction l as [|p l IH]; intros b i next op; cbn [map app length nats].
   - now rewrite N.add_0_r.
-  - rewrite IH. f_equal. f_equal. f_equal. lia.
+  - unfold sck at 1. cbn [file_indices_from app]. rewrite IH. f_equal. f_equal. f_equal. lia.
 Qed.
 
-Lemma fi_schema : forall l i sl op,
-  file_indices_from i sl op (map (fun p => (p, KSchema)) l) = nats i (length l).
-Proof. induction l as [|p l IH]; intros; cbn; [reflexivity | now rewrite IH]. Qed.
-
-Definition op_index (i : N) (op : option N) (sl : N) : N :=
-  match op with Some fi => if i =? fi then sl else USIZE_MAX | None => USIZE_MAX end.
-
-Lemma fi_ops_nth : forall l i sl op k p, nth_error l k = Some p ->
-  nth_error (file_indices_from i sl op (map (fun p => (p, KOperation)) l)) k = Some (op_index (i + N.of_nat k) op sl).
+Lemma fi_length : forall l i next op, length (file_indices_from i next op l) = length l.
 Proof.
-  induction l as [|q l IH]; intros i sl op k p H; destruct k as [|k]; try discriminate; cbn [map file_indices_from nth_error].
-  - unfold op_index. now rewrite N.add_0_r.
-  - rewrite (IH _ _ _ _ _ H). f_equal. f_equal. lia.
+  induction l as [|[p k] l IH]; intros; cbn [file_indices_from length]; [reflexivity|].
+  destruct k; [|destruct (contributes op i)]; cbn [length]; now rewrite IH.
 Qed.
 
 Lemma sf_app : forall ia a ib b, length ia = length a ->
@@ -49,49 +44,45 @@ Proof.
 Qed.
 
 Lemma sf_schema : forall l i, i + N.of_nat (length l) <= USIZE_MAX ->
-  source_files (nats i (length l)) (map (fun p => (p, KSchema)) l) = l.
+  source_files (nats i (length l)) (map sck l) = l.
 Proof.
-  induction l as [|p l IH]; intros i H; [reflexivity|]. cbn [length nats map source_files].
+  induction l as [|p l IH]; intros i H; [reflexivity|]. cbn [length nats map source_files]. unfold sck at 1.
   cbn [length] in H. replace (i =? USIZE_MAX) with false by (symmetry; apply N.eqb_neq; lia).
   rewrite IH by lia. reflexivity.
 Qed.
 
-(** the operation half contributes exactly the file being printed (if any) *)
-Lemma sf_ops : forall l i sl op, sl <> USIZE_MAX ->
-  source_files (file_indices_from i sl op (map (fun p => (p, KOperation)) l)) (map (fun p => (p, KOperation)) l) =
-  match op with
-  | Some fi => if (i <=? fi) && (fi <? i + N.of_nat (length l)) then
-                 match nth_error l (N.to_nat (fi - i)) with Some p => [p] | None => [] end
-               else []
-  | None => []
-  end.
+(** the operation half: a contributing file gets the next index, and ["sources"] holds its path there;
+    any other operation file gets usize::MAX *)
+Lemma ops_part : forall l i next op, next + N.of_nat (length l) < USIZE_MAX ->
+  forall j p, nth_error l j = Some p ->
+  (contributes op (i + N.of_nat j) = true ->
+     exists k, nth_error (file_indices_from i next op (map opk l)) j = Some k /\ next <= k /\ k < next + N.of_nat (length l) /\
+               nth_error (source_files (file_indices_from i next op (map opk l)) (map opk l)) (N.to_nat (k - next)) = Some p) /\
+  (contributes op (i + N.of_nat j) = false ->
+     nth_error (file_indices_from i next op (map opk l)) j = Some USIZE_MAX).
 Proof.
-  induction l as [|q l IH]; intros i sl op Hsl; cbn [map file_indices_from source_files length].
-  - destruct op as [fi|]; [|reflexivity]. destruct ((i <=? fi) && (fi <? i + N.of_nat 0)) eqn:E; [|reflexivity].
-    apply andb_true_iff in E as [E1 E2]. apply N.leb_le in E1. apply N.ltb_lt in E2. cbn in E2. lia.
-  - rewrite IH by exact Hsl. destruct op as [fi|].
-    + destruct (N.eqb_spec i fi) as [->|Hn].
-      * apply N.eqb_neq in Hsl. rewrite Hsl.
-        replace ((fi <=? fi) && (fi <? fi + N.of_nat (S (length l)))) with true
-          by (symmetry; apply andb_true_iff; split; [apply N.leb_le; lia | apply N.ltb_lt; lia]).
-        rewrite N.sub_diag. cbn [N.to_nat nth_error].
-        replace ((N.succ fi <=? fi) && (fi <? N.succ fi + N.of_nat (length l))) with false
-          by (symmetry; apply andb_false_iff; left; apply N.leb_gt; lia).
-        reflexivity.
-      * rewrite N.eqb_refl.
-        destruct ((N.succ i <=? fi) && (fi <? N.succ i + N.of_nat (length l))) eqn:E.
-        -- apply andb_true_iff in E as [E1 E2]. apply N.leb_le in E1. apply N.ltb_lt in E2.
-           replace ((i <=? fi) && (fi <? i + N.of_nat (S (length l)))) with true
-             by (symmetry; apply andb_true_iff; split; [apply N.leb_le; lia | apply N.ltb_lt; lia]).
-           replace (N.to_nat (fi - i)) with (S (N.to_nat (fi - N.succ i))) by lia. reflexivity.
-        -- destruct ((i <=? fi) && (fi <? i + N.of_nat (S (length l)))) eqn:E'; [|reflexivity].
-           apply andb_true_iff in E' as [E1 E2]. apply N.leb_le in E1. apply N.ltb_lt in E2.
-           apply andb_false_iff in E as [E|E]; [apply N.leb_gt in E | apply N.ltb_ge in E]; lia.
-    + rewrite N.eqb_refl. reflexivity.
+  induction l as [|q l IH]; intros i next op H j p Hn; [destruct j; discriminate|].
+  cbn [length] in H. cbn [map length]. change (opk q) with (q, KOperation). cbn [file_indices_from].
+  destruct j as [|j].
+  - injection Hn as ->. rewrite N.add_0_r. destruct (contributes op i) eqn:E.
+    + split; [|discriminate]. intros _. exists next. cbn [nth_error]. split; [reflexivity|]. split; [lia|]. split; [lia|].
+      cbn [source_files]. replace (next =? USIZE_MAX) with false by (symmetry; apply N.eqb_neq; lia).
+      rewrite N.sub_diag. reflexivity.
+    + split; [discriminate|]. intros _. reflexivity.
+  - cbn [nth_error] in Hn. replace (i + N.of_nat (S j)) with (N.succ i + N.of_nat j) by lia.
+    destruct (contributes op i) eqn:E.
+    + destruct (IH (N.succ i) (next + 1) op ltac:(lia) j p Hn) as [A B]. split.
+      * intros C. destruct (A C) as (k & K1 & K2 & K3 & K4). exists k. cbn [nth_error]. split; [exact K1|]. split; [lia|]. split; [lia|].
+        cbn [source_files]. replace (next =? USIZE_MAX) with false by (symmetry; apply N.eqb_neq; lia).
+        replace (N.to_nat (k - next)) with (S (N.to_nat (k - (next + 1)))) by lia. exact K4.
+      * intros C. cbn [nth_error]. exact (B C).
+    + destruct (IH (N.succ i) next op ltac:(lia) j p Hn) as [A B]. split.
+      * intros C. destruct (A C) as (k & K1 & K2 & K3 & K4). exists k. cbn [nth_error]. split; [exact K1|]. split; [lia|]. split; [lia|].
+        cbn [source_files]. rewrite N.eqb_refl. exact K4.
+      * intros C. cbn [nth_error]. exact (B C).
 Qed.
 
-(** * FileMap: every schema file, and the operation file being printed, is in ["sources"] at the index
-      the mapper sends it to; every other operation file is sent to usize::MAX *)
+(** * FileMap *)
 
 Definition store_small (fs : file_store) : Prop :=
   N.of_nat (length (fs_schema fs)) + N.of_nat (length (fs_ops fs)) < 2 ^ 63.
@@ -99,81 +90,86 @@ Definition store_small (fs : file_store) : Prop :=
 Lemma two63_lt_max : 2 ^ 63 < USIZE_MAX.
 Proof. reflexivity. Qed.
 
-Definition sources_of (fs : file_store) (op : option N) : list str :=
+Definition sources_of (fs : file_store) (op : option opdoc) : list str :=
   source_files (file_indices fs op) (fs_iter fs).
 
+Lemma fs_iter_eq fs : fs_iter fs = map sck (fs_schema fs) ++ map opk (fs_ops fs).
+Proof. reflexivity. Qed.
+
+Lemma file_indices_eq : forall fs op,
+  file_indices fs op = nats 0 (length (fs_schema fs)) ++
+                       file_indices_from (fs_schema_len fs) (fs_schema_len fs) op (map opk (fs_ops fs)).
+Proof. intros. unfold file_indices. rewrite fs_iter_eq, fi_schema_app, N.add_0_l. reflexivity. Qed.
+
 Lemma sources_of_eq : forall fs op, store_small fs ->
-  sources_of fs op =
-  fs_schema fs ++
-  match op with
-  | Some fi => if (fs_schema_len fs <=? fi) && (fi <? fs_schema_len fs + N.of_nat (length (fs_ops fs))) then
-                 match nth_error (fs_ops fs) (N.to_nat (fi - fs_schema_len fs)) with Some p => [p] | None => [] end
-               else []
-  | None => []
-  end.
+  sources_of fs op = fs_schema fs ++
+    source_files (file_indices_from (fs_schema_len fs) (fs_schema_len fs) op (map opk (fs_ops fs))) (map opk (fs_ops fs)).
 Proof.
-  intros fs op Hs. unfold sources_of, file_indices, fs_iter, store_small, fs_schema_len in *.
-  pose proof two63_lt_max as HM.
-  rewrite fi_app, fi_schema, map_length, N.add_0_l.
-  rewrite sf_app by (now rewrite nats_length, map_length).
-  rewrite sf_schema by lia. rewrite sf_ops by lia. reflexivity.
+  intros fs op Hs. unfold sources_of. rewrite file_indices_eq, fs_iter_eq. pose proof two63_lt_max as HM. unfold store_small in Hs.
+  rewrite sf_app by (now rewrite nats_length, map_length). rewrite sf_schema by lia. reflexivity.
 Qed.
 
+(** schema file [i] is mapped to [i], and [sources[i]] is its path *)
 Lemma filemap_schema : forall fs op i p, store_small fs ->
   nth_error (fs_schema fs) (N.to_nat i) = Some p ->
   fmap_lookup (Some (file_indices fs op)) i = Some i /\ nth_error (sources_of fs op) (N.to_nat i) = Some p.
 Proof.
   intros fs op i p Hs H. assert (Hl : (N.to_nat i < length (fs_schema fs))%nat) by (apply nth_error_Some; congruence).
   split.
-  - unfold fmap_lookup, file_indices, fs_iter. rewrite fi_app, fi_schema.
-    rewrite nth_error_app1 by (now rewrite nats_length). rewrite nats_nth by exact Hl. f_equal. lia.
+  - unfold fmap_lookup. rewrite file_indices_eq. rewrite nth_error_app1 by (now rewrite nats_length).
+    rewrite nats_nth by exact Hl. f_equal. lia.
   - rewrite sources_of_eq by exact Hs. rewrite nth_error_app1 by exact Hl. exact H.
 Qed.
 
-Lemma filemap_this_op : forall fs j p, store_small fs ->
+(** an operation file that contributes a definition (in particular the file being printed) is mapped to
+    an index [k] of ["sources"], and [sources[k]] is its path *)
+Lemma filemap_contributing : forall fs op j p, store_small fs ->
   nth_error (fs_ops fs) j = Some p ->
-  let i := fs_schema_len fs + N.of_nat j in
-  fmap_lookup (Some (file_indices fs (Some i))) i = Some (fs_schema_len fs) /\
-  nth_error (sources_of fs (Some i)) (N.to_nat (fs_schema_len fs)) = Some p.
+  contributes op (fs_schema_len fs + N.of_nat j) = true ->
+  exists k, fmap_lookup (Some (file_indices fs op)) (fs_schema_len fs + N.of_nat j) = Some k /\
+            nth_error (sources_of fs op) (N.to_nat k) = Some p /\ k < 2 ^ 63.
 Proof.
-  intros fs j p Hs H i. assert (Hl : (j < length (fs_ops fs))%nat) by (apply nth_error_Some; congruence).
-  unfold fs_schema_len in *. split.
-  - unfold fmap_lookup, file_indices, fs_iter, fs_schema_len. rewrite fi_app, fi_schema, map_length, N.add_0_l.
+  intros fs op j p Hs H C. assert (Hl : (j < length (fs_ops fs))%nat) by (apply nth_error_Some; congruence).
+  pose proof two63_lt_max as HM. assert (Hs' := Hs). unfold store_small in Hs'. unfold fs_schema_len in *.
+  destruct (ops_part (fs_ops fs) (N.of_nat (length (fs_schema fs))) (N.of_nat (length (fs_schema fs))) op ltac:(lia) j p H) as [A _].
+  destruct (A C) as (k & K1 & K2 & K3 & K4). exists k. split; [|split; [|lia]].
+  - unfold fmap_lookup. rewrite file_indices_eq. unfold fs_schema_len.
     rewrite nth_error_app2 by (rewrite nats_length; lia). rewrite nats_length.
-    replace (N.to_nat i - length (fs_schema fs))%nat with j by lia.
-    rewrite (fi_ops_nth _ _ _ _ _ _ H). unfold op_index. subst i. rewrite N.eqb_refl. reflexivity.
-  - rewrite sources_of_eq by exact Hs. unfold fs_schema_len.
-    rewrite nth_error_app2 by lia. rewrite Nat2N.id, Nat.sub_diag.
-    replace ((N.of_nat (length (fs_schema fs)) <=? i) && (i <? N.of_nat (length (fs_schema fs)) + N.of_nat (length (fs_ops fs)))) with true
-      by (symmetry; apply andb_true_iff; split; [apply N.leb_le | apply N.ltb_lt]; lia).
-    replace (N.to_nat (i - N.of_nat (length (fs_schema fs)))) with j by lia. rewrite H. reflexivity.
+    replace (N.to_nat (N.of_nat (length (fs_schema fs)) + N.of_nat j) - length (fs_schema fs))%nat with j by lia. exact K1.
+  - rewrite sources_of_eq by exact Hs. unfold fs_schema_len. rewrite nth_error_app2 by lia.
+    replace (N.to_nat k - length (fs_schema fs))%nat with (N.to_nat (k - N.of_nat (length (fs_schema fs)))) by lia. exact K4.
 Qed.
 
-Lemma filemap_other_op : forall fs op j p,
+Lemma contributes_self : forall i c, contributes (Some (i, c)) i = true.
+Proof. intros. cbn. now rewrite N.eqb_refl. Qed.
+
+(** an operation file that contributes nothing is mapped to usize::MAX (schema and resolver outputs: all
+    of them) *)
+Lemma filemap_other_op : forall fs op j p, store_small fs ->
   nth_error (fs_ops fs) j = Some p ->
-  op <> Some (fs_schema_len fs + N.of_nat j) ->
+  contributes op (fs_schema_len fs + N.of_nat j) = false ->
   fmap_lookup (Some (file_indices fs op)) (fs_schema_len fs + N.of_nat j) = Some USIZE_MAX.
 Proof.
-  intros fs op j p H Hop. unfold fmap_lookup, file_indices, fs_iter, fs_schema_len in *.
-  rewrite fi_app, fi_schema, map_length, N.add_0_l.
+  intros fs op j p Hs H C. assert (Hl : (j < length (fs_ops fs))%nat) by (apply nth_error_Some; congruence).
+  pose proof two63_lt_max as HM. unfold store_small in Hs. unfold fs_schema_len in *.
+  destruct (ops_part (fs_ops fs) (N.of_nat (length (fs_schema fs))) (N.of_nat (length (fs_schema fs))) op ltac:(lia) j p H) as [_ B].
+  unfold fmap_lookup. rewrite file_indices_eq. unfold fs_schema_len.
   rewrite nth_error_app2 by (rewrite nats_length; lia). rewrite nats_length.
-  replace (N.to_nat (N.of_nat (length (fs_schema fs)) + N.of_nat j) - length (fs_schema fs))%nat with j by lia.
-  rewrite (fi_ops_nth _ _ _ _ _ _ H). unfold op_index. destruct op as [fi|]; [|reflexivity].
-  destruct (N.eqb_spec (N.of_nat (length (fs_schema fs)) + N.of_nat j) fi) as [E|E]; [|reflexivity].
-  exfalso. apply Hop. now rewrite E.
+  replace (N.to_nat (N.of_nat (length (fs_schema fs)) + N.of_nat j) - length (fs_schema fs))%nat with j by lia. exact (B C).
 Qed.
 
-(** * sources_in_range, under the guard that every mapped node comes from a schema file or from the
-      operation file being printed *)
+(** * sources_in_range: every mapped node comes from a schema file or from an operation file that
+      contributes a definition to the document being printed ([contributing_files] is computed from the
+      positions of the document's definitions, so this is: a node lies in the file of a definition) *)
 
-Definition file_mapped (fs : file_store) (op : option N) (i : N) : bool :=
+Definition file_mapped (fs : file_store) (op : option opdoc) (i : N) : bool :=
   match fs_get fs i with
   | Some (_, KSchema) => true
-  | Some (_, KOperation) => option_eqb N.eqb op (Some i)
+  | Some (_, KOperation) => contributes op i
   | None => false
   end.
 
-Definition ops_mapped (fs : file_store) (op : option N) (os : list wop) : bool :=
+Definition ops_mapped (fs : file_store) (op : option opdoc) (os : list wop) : bool :=
   forallb (fun o => match o with WF _ p _ => p_builtin p || file_mapped fs op (p_file p) | _ => true end) os.
 
 Lemma file_mapped_spec : forall fs op i, store_small fs -> file_mapped fs op i = true ->
@@ -189,12 +185,10 @@ Proof.
     split; [reflexivity|]. split; [exact A|]. split; [exact B | lia].
   - destruct (nth_error (fs_ops fs) (N.to_nat (i - fs_schema_len fs))) as [q|] eqn:En; [|discriminate]. injection G as <- <-.
     apply N.ltb_ge in Ei.
-    assert (Hop : op = Some i).
-    { destruct op as [fi|]; [|discriminate]. cbn in H. apply N.eqb_eq in H. now subst. }
-    pose proof (filemap_this_op fs _ q Hs En) as [A B]. cbv zeta in A, B.
-    replace (fs_schema_len fs + N.of_nat (N.to_nat (i - fs_schema_len fs))) with i in A, B by lia.
-    subst op. exists (fs_schema_len fs), (q, KOperation).
-    split; [reflexivity|]. split; [exact A|]. split; [exact B | unfold fs_schema_len; lia].
+    assert (Ei' : fs_schema_len fs + N.of_nat (N.to_nat (i - fs_schema_len fs)) = i) by lia.
+    rewrite <- Ei' in H.
+    destruct (filemap_contributing fs op _ q Hs En H) as (k & A & B & C). rewrite Ei' in A.
+    exists k, (q, KOperation). split; [reflexivity|]. split; [exact A|]. split; [exact B | exact C].
 Qed.
 
 Lemma isize_of_small : forall k, k < 2 ^ 63 -> isize_of k = Z.of_N k.
@@ -203,8 +197,8 @@ Proof.
   apply N.ltb_lt in H. rewrite H. reflexivity.
 Qed.
 
-(** ** sources_in_range (partial: guard [ops_mapped]) *)
-Lemma sources_in_range_partial_lemma : forall fs op os s,
+(** ** sources_in_range *)
+Lemma sources_in_range_lemma : forall fs op os s,
   store_small fs -> ops_mapped fs op os = true ->
   sw_run (Some (file_indices fs op)) os = Some s ->
   exists es,
@@ -226,49 +220,10 @@ Proof.
   split; [apply isize_of_small, Hk|]. exists c, p, name, path, kind. repeat split; assumption.
 Qed.
 
-(** ** the unguarded statement is false for the current code *)
-
-Definition seg_src_ok (nsources : nat) (g : seg) : Prop :=
-  match g_orig g with
-  | Some (sr, _, _, _) => (0 <= sr < Z.of_nat nsources)%Z
-  | None => True
-  end.
-
-Definition sources_in_range_full : Prop := forall fs op os s gs,
-  store_small fs ->
-  sw_run (Some (file_indices fs op)) os = Some s ->
-  decode_mappings (mbuf (sw_map s)) = Some gs ->
-  Forall (seg_src_ok (length (sources_of fs op))) gs.
-
-(** the witness: store [schema.graphql | main.graphql, y.graphql]; while printing main.graphql's
-    declaration file (file-store index 1), a node of y.graphql (index 2: an imported fragment) is
-    written with [write_for] *)
-Definition wit_store : file_store :=
-  {| fs_schema := [s "/p/schema.graphql"]; fs_ops := [s "/p/main.graphql"; s "/p/y.graphql"] |}.
-Definition wit_ops : list wop := [W (s "type "); WF (s "F") (mkpos 0 9 2 false) (Some (s "F"))].
-
-Lemma imported_fragment_source_index_refuted_lemma :
-  exists st gs g,
-    sw_run (Some (file_indices wit_store (Some 1))) wit_ops = Some st /\
-    decode_mappings (mbuf (sw_map st)) = Some gs /\ In g gs /\
-    g_orig g = Some ((-1)%Z, 0%Z, 9%Z, Some 0%Z) /\
-    sources_of wit_store (Some 1) = [s "/p/schema.graphql"; s "/p/main.graphql"].
-Proof.
-  eexists. eexists. eexists.
-  split; [vm_compute; reflexivity|]. split; [vm_compute; reflexivity|].
-  split; [left; reflexivity|]. split; vm_compute; reflexivity.
-Qed.
-
-Lemma sources_in_range_full_refuted : ~ sources_in_range_full.
-Proof.
-  intros H. destruct imported_fragment_source_index_refuted_lemma as (st & gs & g & H1 & H2 & H3 & H4 & H5).
-  assert (Hs : store_small wit_store) by (vm_compute; reflexivity).
-  pose proof (H wit_store (Some 1) wit_ops st gs Hs H1 H2) as F. rewrite Forall_forall in F.
-  pose proof (F g H3) as G. unfold seg_src_ok in G. rewrite H4 in G. lia.
-Qed.
-
-(** the same mechanism at the level of the writer alone: any file index the mapper sends to usize::MAX *)
-Lemma unmapped_file_index_refuted_lemma :
+(** ** the guard is needed: a node whose file the mapper sends to usize::MAX is written with source
+       index -1 ([write_for] casts the index to [isize]).  Since the fix of cli/generate.rs (the files of
+       imported fragments contribute) no printer does that; it remains a fact about [SourceWriter]. *)
+Lemma unmapped_file_index_lemma :
   exists st gs,
     sw_run (Some [0; USIZE_MAX]) [WF (s "F") (mkpos 0 9 1 false) (Some (s "F"))] = Some st /\
     mbuf (sw_map st) = s ",ADASA,CAAC" /\
@@ -277,6 +232,27 @@ Lemma unmapped_file_index_refuted_lemma :
 Proof.
   eexists. eexists. split; [vm_compute; reflexivity|]. split; [vm_compute; reflexivity|].
   split; vm_compute; reflexivity.
+Qed.
+
+(** the witness of the former defect (DESIGN section 6, #11), now mapped: store
+    [schema.graphql | main.graphql, y.graphql]; while printing main.graphql's declaration file (index 1),
+    whose document has definitions from files 1 and 2, a node of y.graphql (an imported fragment) is
+    written: it gets source index 2 = y.graphql *)
+Definition wit_store : file_store :=
+  {| fs_schema := [s "/p/schema.graphql"]; fs_ops := [s "/p/main.graphql"; s "/p/y.graphql"] |}.
+Definition wit_ops : list wop := [W (s "type "); WF (s "F") (mkpos 0 9 2 false) (Some (s "F"))].
+
+Lemma imported_fragment_mapped_lemma :
+  exists st gs g,
+    sw_run (Some (file_indices wit_store (Some (1, [1; 2])))) wit_ops = Some st /\
+    decode_mappings (mbuf (sw_map st)) = Some gs /\ In g gs /\
+    g_orig g = Some (2%Z, 0%Z, 9%Z, Some 0%Z) /\
+    sources_of wit_store (Some (1, [1; 2])) = [s "/p/schema.graphql"; s "/p/main.graphql"; s "/p/y.graphql"] /\
+    ops_mapped wit_store (Some (1, [1; 2])) wit_ops = true.
+Proof.
+  eexists. eexists. eexists.
+  split; [vm_compute; reflexivity|]. split; [vm_compute; reflexivity|].
+  split; [left; reflexivity|]. split; [vm_compute; reflexivity|]. split; vm_compute; reflexivity.
 Qed.
 
 (** ** original columns: the two readings of "column" differ as soon as an astral character precedes a
